@@ -95,14 +95,19 @@ func compare(a, b any) int {
 	case int:
 		return a - b.(int)
 	case string:
+		origA, origB := a, b.(string)
 		a = strings.ToLower(a)
-		b := strings.ToLower(b.(string))
+		b := strings.ToLower(origB)
 		if a == b {
-			return 0
+			// Same up to letter case: only identical strings are equal
+			return strings.Compare(origA, origB)
 		}
 		for i := 0; i < len(a) && i < len(b); i++ {
 			if a[i] != b[i] {
-				return stringWeights[a[i]] - stringWeights[b[i]]
+				if res := stringWeights[a[i]] - stringWeights[b[i]]; res != 0 {
+					return res
+				}
+				return int(a[i]) - int(b[i]) // both outside the alphabet
 			}
 		}
 		return len(a) - len(b)
